@@ -41,6 +41,43 @@ theorem C17_tables_unique {e : String × List Char × DbExp} (he : e ∈ all) (c
     sameCat c c' = true :=
   C17.C17_closed_tables_unique e.2.2 c c' (tables_closed_mem he) hwf hacc hacc'
 
+/-! ### the whole library: a 1.x library is the pair of files `music` + `perfdata` -/
+
+/-- `verify()` of a library = the validators of all its database files. -/
+def verifyLib (es : List (List Char × DbExp)) (cat : List Char → Db) : Bool :=
+  es.all fun e => verifyDb e.2 (cat e.1)
+
+/-- The library with one single-element mutation applied to the file labelled `l`. -/
+def mutateFile (l : List Char) (m : Mutation) (cat : List Char → Db) : List Char → Db :=
+  fun l' => if l' = l then apply m (cat l') else cat l'
+
+/-- The expectation tables of the database files of one version. -/
+def filesOf (v : String) : List (List Char × DbExp) := (all.filter fun e => e.1 == v).map (·.2)
+
+theorem filesOf_closed {v : String} {e : List Char × DbExp} (h : e ∈ filesOf v) : closed e.2 = true := by
+  obtain ⟨e', he', rfl⟩ := List.mem_map.1 h
+  exact tables_closed_mem (List.mem_filter.1 he').1
+
+/-- **Library level** (lifts the per-file statement to the music + perfdata pair of 1.x): if
+`verify()` of version `v` accepts a library whose file `l` is well formed, it rejects the
+library obtained by any applicable single-element mutation of that file. -/
+theorem C17_library_complete (v : String) (cat : List Char → Db) (l : List Char) (m : Mutation)
+    (hl : ∃ e ∈ filesOf v, e.1 = l) (hwf : wf (cat l) = true) (hacc : verifyLib (filesOf v) cat = true)
+    (happ : applicable m (cat l) = true) : verifyLib (filesOf v) (mutateFile l m cat) = false := by
+  obtain ⟨e, he, rfl⟩ := hl
+  have hacc_e : verifyDb e.2 (cat e.1) = true := (List.all_eq_true.1 hacc) e he
+  have hrej := C17.C17_closed_tables_complete e.2 (cat e.1) m (filesOf_closed he) hwf hacc_e happ
+  cases h : verifyLib (filesOf v) (mutateFile e.1 m cat) with
+  | false => rfl
+  | true =>
+    have := (List.all_eq_true.1 h) e he
+    simp only [mutateFile, if_true] at this
+    rw [hrej] at this
+    exact absurd this (by simp)
+
+/-- non-vacuity: a 1.x version has two files, a 2.x version one -/
+example : (filesOf "schema_1_9_1").length = 2 ∧ (filesOf "schema_2_21_2").length = 1 := by decide
+
 /-- non-vacuity: there are tables (one per version and database file) -/
 example : all.length ≥ 18 := by decide +kernel
 
